@@ -17,6 +17,7 @@ func init() {
 		ruleG3(c, "C08.G3")
 		ruleG4(c, "C08.G4")
 		ruleG5(c, "C08.G5")
+		ruleA2(c, "C08.G6")
 	}
 }
 
